@@ -188,3 +188,29 @@ contract(DEP + 'Initiator.send_dep_req_recv_dep_res', 'C04',
          ensures=[('O-recover.result', 'result is self._g_last')],
          raises={'nfc.clf:TimeoutError': []},
          loops={(TQ, 'While', 0): LoopSpec(invariant=['True'], havoc={'timeout': Any()})})
+
+# second instance: the first frame of a step is LOST (timeout).  The Initiator asks for attention, the Target
+# answers the ATN, the Initiator sends the same request again and the response to that is the result.
+contract(DEP + 'Initiator.send_req_recv_res', 'C04', dict(self=Any(), req=Any(), timeout=Any()),
+         name='C04/frame-exchange.first-frame-lost', assumed=True,
+         note='fault script: exchange 1 times out; exchange 2 (which must be an attention request) is answered by '
+              'the attention response; exchange 3 (which must be the original request again) by the response',
+         requires=[('atn-after-timeout', 'self._g_n != 1 or (req.pfb.fmt == 8 and req is not self._g_req)'),
+                   ('repeat-after-atn', 'self._g_n != 2 or req is self._g_req'),
+                   ('no-fourth-exchange', 'self._g_n <= 2')],
+         modifies={'self._g_n': Int(0, None)},
+         ensures=[('count', 'self._g_n == old(self._g_n) + 1'), ('later', 'old(self._g_n) >= 1')],
+         raises={'nfc.clf:TimeoutError': ['old(self._g_n) == 0', 'self._g_n == 1']},
+         returns='self._g_atn if old(self._g_n) == 1 else self._g_last')
+_RESOBJ = lambda fmts: Obj(DEP + 'DEP_RES', _partial=False,   # noqa
+                           pfb=Obj(DEP + 'DEP_RES.PFB', _partial=False, fmt=fmts, nad=False, did=Bool(), pni=Int(0, 3)),
+                           did=Opt(Int(1, 14)), nad=None, data=Bytes(0, 251, mutable=True))
+contract(DEP + 'Initiator.send_dep_req_recv_dep_res', 'C04',
+         dict(self=Obj(DEP + 'Initiator', miu=Int(1, 251), pni=Int(0, 3), did=Opt(Int(1, 14)), nad=None, _g_n=0,
+                       _g_req=Ref('req'), _g_atn=_RESOBJ(8), _g_last=_RESOBJ(OneOf(0, 1, 4))),
+              req=REQ(), rwt=Const(0.1), timeout=Const(1.0)),
+         name='C04/Initiator.recovers-lost-frame', use=['C04/frame-exchange.first-frame-lost'],
+         requires=['req.pfb.fmt != 5 and req.pfb.fmt != 8'],
+         ensures=[('O-recover.result', 'result is self._g_last')],
+         raises={'nfc.clf:TimeoutError': []},
+         max_unroll=6)
